@@ -105,10 +105,20 @@ def confront(job):
     try:
         write_csv(os.path.join(d, SYMBOL + ".csv"), rows_of(code), rng)
         asset = "EQ:" + SYMBOL
+        # other symbols in the same directory (their names extend / are a prefix of SYMBOL, their rows are other rows at
+        # other prices, one day later) must not influence what is answered for SYMBOL; the directory is loaded with an
+        # explicit symbol list, as a whole, or with a list naming a neighbour first
+        mode = sum(code) % 3
+        if mode:
+            for nb_, shift in ((SYMBOL + "L", 1), (SYMBOL[:-1], 2)):
+                other = [(dd + shift, None if o is None else o + 31 * shift, None if c is None else c + 17 * shift,
+                          None if a is None else a + 5 * shift) for dd, o, c, a in rows_of(tuple(reversed(code)))]
+                write_csv(os.path.join(d, nb_ + ".csv"), other, rng)
+        symlist = [[SYMBOL], None, [SYMBOL + "L", SYMBOL]][mode]
         for adjust in (False, True):
             exp = expected[adjust]
             try:
-                ds = CSVDailyBarDataSource(d, Equity, adjust_prices=adjust, csv_symbols=[SYMBOL])
+                ds = CSVDailyBarDataSource(d, Equity, adjust_prices=adjust, csv_symbols=symlist)
                 dh = BacktestDataHandler(None, data_sources=[ds])
             except Exception as e:
                 out.append((code, adjust, None, "construction", "raised %s: %s" % (type(e).__name__, e)))
@@ -123,7 +133,7 @@ def confront(job):
                 if oi > 0:
                     # a FRESH source asked in shuffled order (nothing memoised): the answer to a query must not
                     # depend on which queries came before it
-                    ds = CSVDailyBarDataSource(d, Equity, adjust_prices=adjust, csv_symbols=[SYMBOL])
+                    ds = CSVDailyBarDataSource(d, Equity, adjust_prices=adjust, csv_symbols=symlist)
                     dh = BacktestDataHandler(None, data_sources=[ds])
                 for t in order:
                     T = ts(t)
